@@ -22,15 +22,27 @@ from rpylib.tools.generic import lazy_indices_product
 RULE = ("indices: every index below the tier bound (quick 4096, thorough 262144) for every pairing (d=2; d=3,4 for "
         "Rosenberg-Strong, d=3 for Szudzik/Pepis-Kalmar), plus directed indices within +-3 of m^2, m^3, m^4, m(m+1)/2, 2^k "
         "for m up to 2^32 (powers of two +-1 and seeded random m in every binade); tuples: every point of a square/cube "
-        "and seeded random large coordinates; intervals: every (L,R) with 1<=L,R<=12, omit_zero in {True,False}, increasing "
+        "and seeded random large coordinates; hyperbolic pairing: every index < 3000 (thorough 20000) and a 25x25 (40x40) square "
+        "against the Lean model, d=3,4 through the base-class fold and Z^2, Z^3 through PairingToZd, and the sieve-found indices "
+        "where the inverse of the divisor-summatory function is hardest; intervals: every (L,R) with 1<=L,R<=12, omit_zero in "
+        "{True,False}, increasing "
         "order and seeded random call histories on fresh objects, plus long asymmetric intervals (long side 1100..5000, short "
         "side 1..8) enumerated in order and then asked again, and 1-d grids 4|1400, 1400|3 drained and probed after exhaustion; sizes: every list over {1..4} of length 1..3, lists with "
         "zeros/ones and seeded random unequal lists; grids: the six 1-d constructors x model families through "
-        "create_sampling_inversion_method, synthetic (L,R), box grids d=2,3 (fixed-size, copula credit) x every pairing. "
+        "create_sampling_inversion_method (h from 0.05 up to 4.0, i.e. beyond the truncation range), synthetic (L,R), box grids d=2,3 "
+        "(fixed-size, copula credit incl. d=3 with unequal thresholds, corner-origin boxes with axes of size 1) x every pairing; "
+        "StatesManager call histories: seeded random histories with skips and max_logged resets, never-skipping and non-decreasing "
+        "histories, the Lean negation witnesses; object reuse: one pairing object shared by two managers on two grid objects, "
+        "drained interleaved, plus a deep copy taken half-way. "
         "non-trivial = index >= 2 / at least two states; distinct = distinct (probe, pairing, d, block or shape)")
-NOT_PROVED = ["HyperbolicPairing (divisor-summatory inverse + factorisation): bijectivity not proved, round trips oracle-checked "
-              "for all indices < 2000, a 40x40 square, and the indices where the inverse of the divisor-summatory function is hardest "
-              "(largest error term relative to z^(1/4), found by a sieve up to n = 4e5 quick / 3e6 thorough)",
+NOT_PROVED = ["HyperbolicPairing: bijectivity N <-> N^2 (and N^d, Z^d through the base-class fold) IS proved for the model "
+              "(pair_proj_hyperbolic, proj_pair_hyperbolic, hyperbolic_ndBij) in which a_n is the closed form as coded (proved equal to the "
+              "divisor summatory function: aN_hyperbola, aN_divisor_summatory) and the mixed-radix digits enumerate the divisors "
+              "(offsets_enumerate_divisors_once); NOT proved, only compared: that numbers.upper_bound_a_n (Halley guess, heuristic bracket "
+              "z -+ 3 z^(1/4), bisection) returns the exact inverse upperBound of a_n for every z (checked on every index < 3000/20000 and on "
+              "the sieve-found hardest indices up to n = 4e5 quick / 3e6 thorough), that floor(sqrt(n)) in a_n and the float division "
+              "floor((z - a_n(n-1)) / np.prod(..)) in projection2d are exact (they are for the magnitudes reached: below 2^52), and that "
+              "sympy.factorint / multiplicity agree with the trial division of the model (compared on n < 120 and selected n)",
               "PairingToZ1d.project for arbitrary call orders: false as coded - it holds in increasing order (theorem "
               "z1d_machine_increasing); z1d_order_counterexample is the negation witness (known finding C14-z1d-call-order)",
               "StatesManager on a box with Rosenberg-Strong: exactly-once-then-exhaustion is proved under the hypothesis "
@@ -39,14 +51,23 @@ NOT_PROVED = ["HyperbolicPairing (divisor-summatory inverse + factorisation): bi
               "Rosenberg-Strong (rs_frontier_bound_counterexample, known finding C14-rs-frontier-bound)",
               "the @cache of PairingToZ1d.project is modelled as a memo of the first answer per index that is never evicted "
               "(theorem z1d_memo_stable: a repeated ask returns the first answer for every history); functools itself is trusted",
-              "StatesManager theorems are for the calls x = 0, 1, 2, ... on a fresh object (the inversion sampler's use); "
-              "other call histories and the max_logged reset are compared with M only",
+              "StatesManager for arbitrary call histories: proved for every history without max_logged reset: no index twice, returned "
+              "indices strictly increasing, sticky exhaustion (sm_history_invariant, sm_history_at_most_once, sm_history_exhaustion_sticky); "
+              "histories with x_k <= k (the sampler's use; all non-decreasing histories without jumps) answer exactly like 0,1,2,... so "
+              "exactly-once-then-exhaustion transfers (sm_history_never_skipping, sm_history_no_jump, sm_history_never_skipping_complete). "
+              "FALSE for histories that jump ahead (skipped indices are lost: sm_history_skipped_lost, witness sm_history_skip_witness) and once "
+              "the reset is used (a reset call answers like a fresh object: sm_reset_is_fresh; an index can come twice and exhaustion is not "
+              "sticky: sm_reset_witnesses); the witnesses are replayed on the implementation (probe c14.sm_history, phenomenon=...). These are "
+              "consequences of the documented pointer/reset design, not recorded as findings; in 1-d the model uses the pure projection, so "
+              "1-d histories are generated never-skipping inside the switched region (see C14-z1d-call-order)",
               "Domain boundaries other than `Boundary()` (Rectangle/Simplex/MyBoundary) are not modelled",
               "the float estimate inside _integer_root is modelled by its exact result (the code corrects it with integers); "
               "Python-level exceptions (dim = 0, empty size list) are outside M"]
 ASSUMPTIONS = ["indices and coordinates are Python ints (arbitrary precision); grids have one common origin index "
-               "(CTMCGrid stores a single origin_coordinate)"]
-TRUSTED = ["sympy.factorint / multiplicity and scipy root_scalar inside HyperbolicPairing (oracle only)",
+               "(CTMCGrid stores a single origin_coordinate)",
+               "HyperbolicPairing: indices small enough that float sqrt / float division inside a_n and projection2d are exact (< 2^52)"]
+TRUSTED = ["sympy.factorint / multiplicity (modelled by trial division, compared) and scipy root_scalar inside numbers.inv_guess_a "
+           "(only the final result of upper_bound_a_n is compared with the exact inverse)",
            "functools.cache / lru_cache semantics (the model keeps an explicit cache list)"]
 
 KINDS = ["cantor", "rs2", "rs", "szudzik", "pepis"]
@@ -174,13 +195,15 @@ def probe_pair_tuples(ctx, inp):
 
 
 def probe_hyperbolic(ctx, inp):
-    """oracle only (bijectivity of the hyperbolic pairing is not proved): round trips"""
+    """HyperbolicPairing: S round trips + injectivity on all indices < n and a side x side square; C against M
+    (Model/PairingHyperbolic.lean: hypProj / hypPair / aN / factor), exact"""
     probe = "c14.hyperbolic"
     n, side = inp["n"], inp["side"]
-    ctx.count(probe, inp, branch="oracle-only")
+    ctx.count(probe, inp, branch="range+square")
     ctx.evaluations += n + side * side - 1
     hp = HyperbolicPairing()
     seen = {}
+    impl = []
     for i in range(n):
         ok, t = ctx.guard(probe, inp, lambda: tuple(int(v) for v in hp.projection(i)))
         if not ok:
@@ -191,13 +214,47 @@ def probe_hyperbolic(ctx, inp):
             ctx.fail("oracle", probe, dict(inp, index=i), {"what": "pairing(projection(i)) != i or tuple repeated", "tuple": list(t), "back": repr(back)})
             return
         seen[t] = i
-    for x in range(side):
-        for y in range(side):
-            ok, z = ctx.guard(probe, inp, lambda: int(hp.pairing((x, y))))
-            ok2, back = ctx.guard(probe, inp, lambda: tuple(int(v) for v in hp.projection(z))) if ok else (False, None)
-            if not ok or not ok2 or back != (x, y):
-                ctx.fail("oracle", probe, dict(inp, tuple=[x, y]), {"what": "projection(pairing(x)) != x", "index": repr(z), "back": repr(back)})
-                return
+        impl.append(t)
+    square = [(x, y) for x in range(side) for y in range(side)]
+    zs = []
+    for x, y in square:
+        ok, z = ctx.guard(probe, inp, lambda: int(hp.pairing((x, y))))
+        ok2, back = ctx.guard(probe, inp, lambda: tuple(int(v) for v in hp.projection(z))) if ok else (False, None)
+        if not ok or not ok2 or back != (x, y):
+            ctx.fail("oracle", probe, dict(inp, tuple=[x, y]), {"what": "projection(pairing(x)) != x", "index": repr(z), "back": repr(back)})
+            return
+        zs.append(z)
+    if len(set(zs)) != len(zs):
+        ctx.fail("oracle", probe, inp, {"what": "two different tuples share an index"})
+        return
+    # C: against M
+    model = []
+    for start in range(0, n, 1000):
+        ans = ctx.lean(f"hypproj {start} {min(1000, n - start)}")
+        if bad_answer(ctx, probe, inp, ans):
+            return
+        model += ill(ans)
+    if model != impl:
+        k = next(j for j, (a, b) in enumerate(itertools.zip_longest(model, impl)) if a != b)
+        ctx.fail("corr", probe + ".model", dict(inp, index=k), {"name": "Drivers/C14 hypproj vs HyperbolicPairing.projection2d",
+                                                                 "impl": list(impl[k]), "model": repr(model[k] if k < len(model) else None)})
+        return
+    mz = il(ctx.lean(f"hyppairmany {wii(square)}"))
+    if mz != zs:
+        k = next(j for j, (a, b) in enumerate(itertools.zip_longest(mz, zs)) if a != b)
+        ctx.fail("corr", probe + ".model", dict(inp, tuple=list(square[k])), {"name": "Drivers/C14 hyppairmany vs HyperbolicPairing.pairing2d",
+                                                                              "impl": zs[k], "model": mz[k] if k < len(mz) else None})
+        return
+    from rpylib.numerical.numbers import a_n
+    from sympy import factorint
+    ns = list(range(0, min(n, 400))) + [k * k + e for k in range(20, 60) for e in (-1, 0, 1)]
+    if il(ctx.lean(f"an {wi(ns)}")) != [int(a_n(k)) for k in ns]:
+        ctx.fail("corr", probe + ".model", inp, {"name": "Drivers/C14 an vs numbers.a_n"})
+        return
+    for k in list(range(1, 120)) + [side * side - 1, 2 ** 10, 2 * 3 * 5 * 7 * 11, 997 * 991, 1009 ** 2]:
+        if ill(ctx.lean(f"factor {k}")) != [(int(p), int(e)) for p, e in sorted(factorint(k).items())]:
+            ctx.fail("corr", probe + ".model", inp, {"name": "Drivers/C14 factor vs sorted(sympy.factorint(n).items())", "n": k})
+            return
 
 
 def _divisor_sums(M):
@@ -229,8 +286,9 @@ def probe_hyperbolic_hard(ctx, inp):
         hard += [r.randrange(2, M) for _ in range(top // 8)]
         zs = sorted({int(z) for nn in hard for z in (D[nn - 1], D[nn] - 1, D[nn]) if z > 0})
         ctx.branches["c14.hyperbolic_hard:max_error_ratio_x1000"] = int(1000 * float(ratio.max()))
-    ctx.count(probe, {k: v for k, v in inp.items()}, branch="oracle-only")
+    ctx.count(probe, {k: v for k, v in inp.items()}, branch="sieve" if "indices" not in inp else "explicit")
     ctx.evaluations += len(zs) - 1
+    impl = []
     for z in zs:
         ok, nn = ctx.guard(probe, inp, lambda: int(upper_bound_a_n(z)))
         if not ok or not (a_n(nn - 1) <= z < a_n(nn)):
@@ -242,7 +300,64 @@ def probe_hyperbolic_hard(ctx, inp):
         if not ok or not ok2 or back != z or min(t) < 0:
             ctx.fail("oracle", probe, dict(indices=[z]), {"what": "pairing(projection(z)) != z", "tuple": repr(t), "back": repr(back)})
             return
+        impl.append((t[0], t[1], nn))
+    # C: against M (projection and the exact inverse of the divisor summatory function), in batches
+    step = max(1, len(zs) // ctx.n(600, 4000)) if "indices" not in inp else 1
+    sub = zs[::step]
+    subimpl = impl[::step]
+    model = []
+    for a in range(0, len(sub), 200):
+        ans = ctx.lean(f"hypprojmany {wi(sub[a:a + 200])}")
+        if bad_answer(ctx, probe, inp, ans):
+            return
+        model += ill(ans)
+    if model != subimpl:
+        k = next(j for j, (a, b) in enumerate(itertools.zip_longest(model, subimpl)) if a != b)
+        ctx.fail("corr", probe + ".model", dict(indices=[sub[k]]), {"name": "Drivers/C14 hypprojmany vs HyperbolicPairing.projection2d / upper_bound_a_n",
+                                                                   "impl": list(subimpl[k]), "model": repr(model[k] if k < len(model) else None)})
 
+
+
+def probe_hyperbolic_nd(ctx, inp):
+    """HyperbolicPairing through the base-class extension to d coordinates and through PairingToZd: S round trips,
+    distinctness; C against M (hyperbolic.projD / pairN / zdProject), exact"""
+    probe = "c14.hyperbolic_nd"
+    d, start, count = inp["d"], inp["start"], inp["count"]
+    cls = dict(kind="hyperbolic", d=d)
+    ctx.count(probe, inp, nontrivial=start + count > 2, branch=f"d{d}:{inp.get('via', 'N')}")
+    ctx.evaluations += count - 1
+    hp = HyperbolicPairing()
+    if inp.get("via") == "zd":
+        p = PairingToZd(hp, dimension=d, omit_zero=True)
+        proj, pair, req = (lambda i: p.project(i)), (lambda t: p.pair(t)), f"hypzdproj {d} {start} {count}"
+    else:
+        proj, pair, req = (lambda i: hp.projection(i, d)), (lambda t: hp.pairing(t)), f"hypprojd {d} {start} {count}"
+    impl = []
+    for i in range(start, start + count):
+        ok, t = ctx.guard(probe, inp, lambda: tuple(int(v) for v in proj(i)))
+        ok2, back = ctx.guard(probe, inp, lambda: int(pair(t))) if ok else (False, None)
+        bad_shape = ok and (len(t) != d or (inp.get("via") == "zd" and not any(t)) or (inp.get("via") != "zd" and min(t) < 0))
+        if not ok or not ok2 or back != i or bad_shape:
+            ctx.fail("oracle", probe, dict(inp, index=i), {"what": "pair(project(i)) != i, wrong shape, or an exception", "state": repr(t),
+                                                            "back": repr(back)}, cls=cls)
+            return
+        impl.append(t)
+    if len(set(impl)) != len(impl):
+        ctx.fail("oracle", probe, inp, {"what": "a tuple is enumerated twice"}, cls=cls)
+        return
+    ans = ctx.lean(req)
+    if bad_answer(ctx, probe, inp, ans):
+        return
+    model = ill(ans)
+    if model != impl:
+        k = next(j for j, (a, b) in enumerate(itertools.zip_longest(model, impl)) if a != b)
+        ctx.fail("corr", probe + ".model", dict(inp, index=start + k), {"name": "Drivers/C14 " + req.split(" ")[0] + " vs HyperbolicPairing (d coordinates)",
+                                                                         "impl": list(impl[k]), "model": repr(model[k] if k < len(model) else None)}, cls=cls)
+        return
+    if inp.get("via") != "zd":
+        sample = impl[:: max(1, len(impl) // 80)]
+        if il(ctx.lean(f"hyppairn {wii(sample)}")) != [int(hp.pairing(t)) for t in sample]:
+            ctx.fail("corr", probe + ".model", inp, {"name": "Drivers/C14 hyppairn vs HyperbolicPairing.pairing"}, cls=cls)
 
 
 # ------------------------------------------------------------------------------------------- probes: N <-> Z, Z^d
@@ -537,7 +652,7 @@ def sm_check(ctx, probe, inp, cls, sm, d, o, ns, model_req, first=None, after_ca
         what = "a returned state is outside the grid or is the origin"
     elif set(states) - set(returned):
         what = "exhaustion signalled before every in-grid non-origin state was returned"
-    elif any(s not in states for s in after):
+    elif any(s not in states and not (o == 0 and not any(s)) for s in after):     # origin in the corner: it is a frontier state itself
         what = "the state handed back at exhaustion is not an in-grid state"
     if what:
         miss = sorted(set(states) - set(returned))
@@ -660,7 +775,9 @@ def probe_sm_box(ctx, inp):
 
 
 def probe_sm_history(ctx, inp):
-    """arbitrary call histories (skip pointer, max_logged reset) on a fresh StatesManager of a box grid: C only"""
+    """arbitrary call histories (skip pointer, max_logged reset) on a fresh StatesManager of a box grid: C against M; S for the
+    parts proved of M: no state twice and sticky exhaustion without reset (any history), never-skipping histories answer
+    like 0,1,2,...; `phenomenon` = a Lean negation witness that must show on the implementation as well"""
     probe = "c14.sm_history"
     kind, o, ns, xs, ml = inp["pairing"], inp["o"], inp["ns"], inp["xs"], inp["max_logged"]
     d = len(ns)
@@ -687,11 +804,109 @@ def probe_sm_history(ctx, inp):
         ctx.fail("oracle", probe, inp, {"what": "a returned state is outside the grid or is the origin", "outs": repr(outs)[:400]}, cls=cls)
         return
     m_outs, m_last, m_mf = parse_sm(ctx.lean(req))
-    if m_outs != outs or m_last != int(sm._last_projected_index) or m_mf != int(sm.max_frontier_indices):
+    mirrors = not (m_outs != outs or m_last != int(sm._last_projected_index) or m_mf != int(sm.max_frontier_indices))
+    if not mirrors:
         k = next((j for j, (a, b) in enumerate(itertools.zip_longest(m_outs, outs)) if a != b), None)
         ctx.fail("corr", probe + ".model", inp, {"name": "Drivers/C14 sm1d/smbox (history) vs StatesManager", "first_difference_at_call": k,
                                                  "impl": repr(outs)[:300], "model": repr(m_outs)[:300],
                                                  "impl_last": int(sm._last_projected_index), "model_last": m_last}, cls=cls)
+    no_reset = ml not in xs
+    cls = dict(cls, reset=not no_reset)
+    if no_reset:
+        # theorem sm_history_at_most_once / sm_history_exhaustion_sticky: any history without reset
+        if len(set(returned)) != len(returned):
+            ctx.fail("oracle", probe, inp, {"what": "a state is returned twice although max_logged is never hit", "outs": repr(outs)[:400]},
+                     cls=cls, mirrors_model=mirrors)
+            return
+        if None in outs and any(s is not None for s in outs[outs.index(None):]):
+            ctx.fail("oracle", probe, inp, {"what": "a state is returned after exhaustion was signalled (no reset)", "outs": repr(outs)[:400]},
+                     cls=cls, mirrors_model=mirrors)
+            return
+        if all(x <= k for k, x in enumerate(xs)):
+            # theorem sm_history_never_skipping: the answers are those of the calls 0, 1, ..., len-1 on a fresh object
+            ctx.branches["c14.sm_history:never_skipping"] += 1
+            if d == 1:
+                p2 = PairingToZ1d((-L, R), omit_zero=True)
+            else:
+                p2 = impl_zd(kind, d)
+            sm2 = StatesManager(pairing=p2, domain=Domain(boundary=Boundary(), grid=g, pairing=p2), grid=g)
+            ref, _ = run_manager(sm2, d, list(range(len(xs))), -1)
+            if ref != outs:
+                k = next(j for j, (a, b) in enumerate(zip(ref, outs)) if a != b)
+                ctx.fail("oracle", probe, inp, {"what": "a history that never asks beyond the number of calls made answers differently from 0,1,2,...",
+                                                "call": k, "got": repr(outs[k]), "in_order": repr(ref[k])}, cls=cls, mirrors_model=mirrors)
+    ph = inp.get("phenomenon")
+    if ph:
+        # the Lean negation witnesses (sm_history_skip_witness, sm_reset_witnesses) replayed on the implementation
+        def shows(o):
+            r = [s for s in o if s is not None]
+            if ph == "skip":
+                return None in o and len(set(r)) < len(states)
+            if ph == "repeat":
+                return len(set(r)) < len(r)
+            if ph == "revive":
+                return None in o and any(s is not None for s in o[o.index(None):])
+            return False
+        ctx.branches[f"c14.sm_history:witness:{ph}:{'reproduced' if shows(outs) else 'NOT-reproduced'}"] += 1
+        if shows(outs) != shows(m_outs) or not shows(m_outs):
+            ctx.fail("corr", probe + ".model", inp, {"name": f"negation witness '{ph}' of the Lean model is not reproduced by the implementation",
+                                                     "impl": repr(outs)[:300], "model": repr(m_outs)[:300]}, cls=cls)
+
+
+def probe_sm_shared(ctx, inp):
+    """object reuse: two StatesManagers sharing ONE pairing object (1-d: the stateful, cached PairingToZ1d; n-d: one
+    PairingToZd / one lru_cached RosenbergStrong) drained interleaved; then a deep copy taken half-way is drained too.
+    S: each manager returns every in-grid non-origin state exactly once, then exhaustion; both agree call by call."""
+    import copy
+    probe = "c14.sm_shared"
+    kind, o, ns = inp["pairing"], inp["o"], inp["ns"]
+    d = len(ns)
+    cls = dict(pairing=kind, d=d)
+    ctx.count(probe, inp, branch=f"{kind}:d{d}:{inp.get('mode', 'interleaved')}")
+    axes = [np.array([float(k - o) for k in range(n)]) for n in ns]
+    g = zoo.CTMCGrid(h=1.0, origin_coordinate=o, axes=axes)
+    g2 = zoo.CTMCGrid(h=0.5, origin_coordinate=o, axes=[a / 2 for a in axes])      # a second grid object of the same shape
+    if d == 1:
+        L, R = o, ns[0] - o - 1
+        p = PairingToZ1d((-L, R), omit_zero=True)
+        req = lambda xs: f"sm1d {L} {R} -1 {wi(xs)}"
+    else:
+        p = impl_zd(kind, d)
+        req = lambda xs: f"smbox {kind} {o} {wi(ns)} -1 {wi(xs)}"
+    try:
+        sm1 = StatesManager(pairing=p, domain=Domain(boundary=Boundary(), grid=g, pairing=p), grid=g)
+        sm2 = StatesManager(pairing=p, domain=Domain(boundary=Boundary(), grid=g2, pairing=p), grid=g2)
+        limit = int(sm1.max_frontier_indices) + 4
+        o1, o2, o3 = [], [], []
+        sm3 = None
+        half = max(1, limit // 2)
+        for x in range(limit + 1):
+            if x == half:
+                sm3 = copy.deepcopy(sm1)
+                o3 = list(o1)
+            o1 += run_manager(sm1, d, [x], -1)[0]
+            o2 += run_manager(sm2, d, [x], -1)[0]
+            if sm3 is not None:
+                o3 += run_manager(sm3, d, [x], -1)[0]
+    except Exception as e:  # noqa
+        ctx.fail("oracle", probe, inp, {"what": "StatesManager raised", "exception": repr(e)}, cls=cls)
+        return
+    ctx.evaluations += 3 * len(o1) - 1
+    m_outs, _, _ = parse_sm(ctx.lean(req(list(range(limit + 1)))))
+    mirrors = m_outs == o1
+    if not mirrors:
+        ctx.fail("corr", probe + ".model", inp, {"name": "Drivers/C14 sm1d/smbox vs the first of two StatesManagers sharing a pairing object",
+                                                 "impl": repr(o1)[:300], "model": repr(m_outs)[:300]}, cls=cls)
+    if o2 != o1 or o3 != o1:
+        who = "second manager sharing the pairing object" if o2 != o1 else "deep copy taken half-way"
+        other = o2 if o2 != o1 else o3
+        k = next(j for j, (a, b) in enumerate(zip(o1, other)) if a != b)
+        ctx.fail("oracle", probe, inp, {"what": f"the {who} enumerates differently from the first manager", "call": k,
+                                        "first": repr(o1[k]), "other": repr(other[k])}, cls=cls, mirrors_model=mirrors)
+        return
+    returned = [s for s in o1 if s is not None]
+    if len(set(returned)) != len(returned) or None not in o1:
+        ctx.fail("oracle", probe, inp, {"what": "a state twice or no exhaustion with a shared pairing object"}, cls=cls, mirrors_model=mirrors)
 
 
 PROBES = {"c14.proj_block": probe_proj_block, "c14.pair_tuples": probe_pair_tuples, "c14.hyperbolic": probe_hyperbolic,
@@ -699,7 +914,8 @@ PROBES = {"c14.proj_block": probe_proj_block, "c14.pair_tuples": probe_pair_tupl
           "c14.fold": probe_fold, "c14.zd_block": probe_zd_block, "c14.zd_states": probe_zd_states,
           "c14.z1d_increasing": probe_z1d_increasing, "c14.z1d_order": probe_z1d_order, "c14.z1d_stable": probe_z1d_stable,
           "c14.sm_frontier_after_exhaustion": probe_sm_frontier_after_exhaustion, "c14.lazy": probe_lazy,
-          "c14.sm_1d": probe_sm_1d, "c14.sm_box": probe_sm_box, "c14.sm_history": probe_sm_history}
+          "c14.sm_1d": probe_sm_1d, "c14.sm_box": probe_sm_box, "c14.sm_history": probe_sm_history,
+          "c14.hyperbolic_nd": probe_hyperbolic_nd, "c14.sm_shared": probe_sm_shared}
 
 
 # ------------------------------------------------------------------------------------------- generators
@@ -754,8 +970,15 @@ def run(ctx):
     for _ in range(ctx.n(5, 30)):
         tuples = {(rng.randrange(0, 2 ** 20), rng.randint(0, 60)) for _ in range(6)}
         probe_pair_tuples(ctx, dict(kind="pepis", tuples=[list(t) for t in sorted(tuples)], why="large"))
-    probe_hyperbolic(ctx, dict(n=2000, side=ctx.n(25, 40)))
+    probe_hyperbolic(ctx, dict(n=ctx.n(3000, 20000), side=ctx.n(25, 40)))
     probe_hyperbolic_hard(ctx, dict(M=ctx.n(400_000, 3_000_000), top=ctx.n(1200, 8000), seed=rng.randrange(2 ** 30)))
+    # 3b. the hyperbolic pairing in d coordinates (base-class fold) and on Z^d
+    probe_hyperbolic_nd(ctx, dict(d=3, start=0, count=ctx.n(1500, 12000)))
+    probe_hyperbolic_nd(ctx, dict(d=4, start=0, count=ctx.n(300, 2000)))
+    probe_hyperbolic_nd(ctx, dict(d=2, start=0, count=ctx.n(1500, 12000), via="zd"))
+    probe_hyperbolic_nd(ctx, dict(d=3, start=0, count=ctx.n(600, 5000), via="zd"))
+    for _ in range(ctx.n(3, 12)):
+        probe_hyperbolic_nd(ctx, dict(d=3, start=rng.randrange(10 ** 4, 10 ** 6), count=40, via=rng.choice(["N", "zd"])))
     # 4. folding and Z^d
     probe_fold(ctx, dict(values=list(range(-300, 301)), why="range"))
     probe_fold(ctx, dict(values=[s * (2 ** k + e) for k in range(8, 100, 7) for e in (-1, 0, 1) for s in (1, -1)], why="large"))
@@ -805,6 +1028,8 @@ def run(ctx):
     for length in (1, 2, 3):
         for sizes in itertools.product(range(1, 5), repeat=length):
             probe_lazy(ctx, dict(sizes=list(sizes)))
+    for sizes in ([1, 1], [1, 1, 1], [1, 2], [2, 1], [3, 1, 2], [1, 3, 1, 2], [4, 1, 1, 5], [1, 49], [49, 1, 3], [1, 103, 2]):
+        probe_lazy(ctx, dict(sizes=sizes))
     for sizes in ([2, 3], [3, 2], [1, 5, 1], [5, 1, 7], [0, 3], [3, 0], [2, 0, 2], [7, 9, 11], [2, 3, 4, 5], [9, 9], [21, 21], [1], [6, 5, 4, 3, 2]):
         probe_lazy(ctx, dict(sizes=sizes))
     for _ in range(ctx.n(20, 150)):
@@ -831,6 +1056,12 @@ def run(ctx):
             if gk == "credit":
                 kw["level_a"] = -rng.choice([0.25, 0.3, 0.5])
             probe_sm_1d(ctx, dict(source="factory", family=fam, params=params, grid_kind=gk, h=h, kw=kw))
+    # edge arguments: h of the order of / larger than the truncation range (one-sided or 3-point grids, or the constructor refuses)
+    for fam, params in zoo.model_stream(rng, ctx.n(2, 6)):
+        for gk, kw in (("uniform", dict(truncation_probability=0.99)), ("fixed", dict(nb_of_points=3)), ("credit", dict(level_a=-0.5)),
+                       ("geometric_bounds", dict(nb=2, truncations=[-1.0, 1.5]))):
+            for h in (0.5, 1.0, 4.0):
+                probe_sm_1d(ctx, dict(source="factory", family=fam, params=params, grid_kind=gk, h=h, kw=kw))
     for L, R in ((4, 1400), (1400, 3), (rng.randint(1, 6), rng.randint(1100, 2000))):
         probe_sm_frontier_after_exhaustion(ctx, dict(L=L, R=R))
     # 8. StatesManager: boxes
@@ -851,7 +1082,46 @@ def run(ctx):
                    copula=rng.choice(zoo.COPULAS), h=rng.choice([0.1, 0.05]), a=[-rng.choice([0.25, 0.3, 0.4]) for _ in range(d)],
                    sym=rng.choice([True, False]), pairing="factory")
         probe_sm_box(ctx, inp)
+    # box grids with the origin in the corner and axes of size 1 (size tuples containing 1)
+    for ns in ([1, 3], [3, 1], [2, 1, 3], [1, 4, 1], [1, 1, 2], [4, 1]):
+        for kind in (["cantor", "szudzik", "pepis"] if len(ns) == 2 else ["szudzik"]):
+            probe_sm_box(ctx, dict(grid="axes", o=0, ns=ns, pairing=kind))
+    # dimension 3, unequal per-axis thresholds
+    probe_sm_box(ctx, dict(grid="credit", margins=["hem", "merton", "hem"], copula="clayton", h=0.1, a=[-0.25, -0.3, -0.4], sym=False,
+                           pairing="factory"))
+    # object reuse: one pairing object shared by two managers (two grid objects), and a deep copy taken half-way
+    for L, R in ((2, 5), (5, 2), (1, 7), (7, 1), (4, 4), (3, 40), (rng.randint(1, 9), rng.randint(1, 9))):
+        probe_sm_shared(ctx, dict(pairing="z1d", o=L, ns=[L + R + 1]))
+    for _ in range(ctx.n(6, 30)):
+        d = rng.choice([2, 2, 3])
+        o = rng.randint(0, 3)
+        ns = [o + rng.randint(1 if o == 0 else 2, 4) for _ in range(d)]
+        if math.prod(ns) < 3:
+            continue
+        probe_sm_shared(ctx, dict(pairing=rng.choice(["cantor", "rs", "szudzik", "pepis"] if d == 2 else ["rs", "szudzik"]), o=o, ns=ns))
     # 9. arbitrary call histories of the states manager (skip pointer, reset) against M
+    # the Lean negation witnesses replayed on the implementation (theorems sm_history_skip_witness, sm_reset_witnesses)
+    for w in (dict(pairing="z1d", o=1, ns=[4], xs=[1, 2, 3, 4], max_logged=-1, phenomenon="skip"),
+              dict(pairing="z1d", o=1, ns=[4], xs=[0, 1, 0], max_logged=0, phenomenon="repeat"),
+              dict(pairing="z1d", o=1, ns=[3], xs=[0, 1, 2, 0], max_logged=0, phenomenon="revive"),
+              dict(pairing="cantor", o=1, ns=[3, 3], xs=[3, 3, 4, 9, 20, 21], max_logged=-1, phenomenon="skip"),
+              # the inversion sampler's pattern once its storage (max_logged) is full: calls 0..max_logged-1, then max_logged
+              dict(pairing="cantor", o=1, ns=[3, 3], xs=[0, 1, 2, 3, 4, 5, 6], max_logged=6, phenomenon="repeat")):
+        probe_sm_history(ctx, w)
+    # never-skipping and non-decreasing histories (theorems sm_history_never_skipping, sm_history_at_most_once)
+    for _ in range(ctx.n(40, 300)):
+        d = rng.choice([1, 2, 2, 3])
+        o = rng.randint(1, 3)
+        ns = [o + rng.randint(2, 4) for _ in range(d)]
+        kind = "z1d" if d == 1 else rng.choice(["cantor", "rs", "szudzik", "pepis"] if d == 2 else ["rs", "szudzik"])
+        n_calls = rng.randint(1, math.prod(ns) + 4)
+        if d == 1 or rng.random() < 0.6:
+            xs = [rng.randint(0, k) for k in range(n_calls)]                          # never skipping
+            if rng.random() < 0.5:
+                xs = [max(xs[: k + 1]) for k in range(n_calls)]                      # ... and non-decreasing
+        else:
+            xs = sorted(rng.randrange(3 * math.prod(ns)) for _ in range(n_calls))     # non-decreasing with jumps
+        probe_sm_history(ctx, dict(pairing=kind, o=o, ns=ns, xs=xs, max_logged=-1))
     for _ in range(ctx.n(40, 400)):
         d = rng.choice([1, 2, 2, 3])
         o = rng.randint(1, 3)
